@@ -163,10 +163,13 @@ SELF = ("param", "self")
 class Evaluator(object):
     """Evaluates one function (with bounded inlining of same-object helper calls)."""
 
-    def __init__(self, prog, inline_depth=2, no_inline=()):
+    def __init__(self, prog, inline_depth=2, no_inline=(), ignore_refresh=False):
         self.prog = prog
         self.inline_depth = inline_depth
         self.no_inline = set(no_inline)
+        # reports are compared modulo tree refreshes: `if X.root.stale: X.root.update(X.root.now, None)` brings derived state up to date and changes
+        # nothing a reader can see (C08); which accessor performs it, and whether a report performs one more, is decided by the accessor rules
+        self.ignore_refresh = ignore_refresh
         self._ids = itertools.count(1)
         self._may_write = None
         self._effects = None
@@ -356,7 +359,30 @@ class Evaluator(object):
     # ---- control flow --------------------------------------------------------------------------
     def st_If(self, s, st, frame):
         cond = self.ev(s.test, st, frame)
+        if self.ignore_refresh and not s.orelse and self._is_tree_refresh(s, cond, st, frame):
+            return
         self.branch(cond, s.body, s.orelse, st, frame)
+
+    def _is_tree_refresh(self, s, cond, st, frame):
+        """if R.stale: R.update(R.now[, None])   with R some node's root, however it is named"""
+        if not (isinstance(cond, tuple) and len(cond) == 4 and cond[0] == "fld" and cond[2] == "stale"):
+            return False
+        R = cond[1]
+        if not (isinstance(R, tuple) and len(R) == 4 and R[0] == "fld" and R[2] == "root"):
+            return False
+        if len(s.body) != 1 or not isinstance(s.body[0], ast.Expr) or not isinstance(s.body[0].value, ast.Call):
+            return False
+        c = s.body[0].value
+        if not (isinstance(c.func, ast.Attribute) and c.func.attr == "update" and not c.keywords and len(c.args) in (1, 2)):
+            return False
+        if not all(_simple_pure_expr(x) for x in [c.func.value] + list(c.args)):
+            return False
+        if canon(self.ev(c.func.value, st, frame)) != canon(R):
+            return False
+        a0 = self.ev(c.args[0], st, frame)
+        if not (isinstance(a0, tuple) and len(a0) == 4 and a0[0] == "fld" and a0[2] == "now" and canon(a0[1]) == canon(R)):
+            return False
+        return len(c.args) == 1 or canon(self.ev(c.args[1], st, frame)) == canon(NONE)
 
     def branch(self, cond, body, orelse, st, frame):
         lt = literals(cond, True)
@@ -1137,6 +1163,12 @@ class Evaluator(object):
     def ex_IfExp(self, e, st, frame):
         # each arm is evaluated under its own condition (its calls and refreshing reads happen only then)
         c = self.ev(e.test, st, frame)
+        try:
+            cc = canon(c)
+        except Exception:
+            cc = None
+        if cc in (("bool", True), ("bool", False)):
+            return self.ev(e.body if cc[1] else e.orelse, st, frame)  # decided where it stands (a default argument, a constant)
         s1, s2, n1, n2 = self._fork(st, c)
         v1 = self.ev(e.body, s1, frame) if s1.alive is True else NONE
         v2 = self.ev(e.orelse, s2, frame) if s2.alive is True else NONE
@@ -1239,6 +1271,9 @@ class Evaluator(object):
                     self._nt_fields = {}
                 self._nt_fields[out_] = list(fields)
                 return out_
+        if t == "ite" and len(fv) == 4 and all(isinstance(a, tuple) and a and a[0] == "func" and "." in a[1] and a[1].split(".")[0] in PURE_MODULES for a in fv[2:]):
+            # f = lib.g if c else lib.h; f(x)   is   lib.g(x) if c else lib.h(x)
+            return ("ite", fv[1], self.call_value(fv[2], args, kwargs, st, frame, node), self.call_value(fv[3], args, kwargs, st, frame, node))
         if t == "func":
             name = fv[1]
             fi = self.prog.functions.get((frame.fn.module, name))
@@ -1326,6 +1361,9 @@ class Evaluator(object):
                     ci = self.prog.classes[c]
                     if name in ci.methods and not ci.methods[name].is_property and ci.methods[name] not in cands:
                         cands.append(ci.methods[name])
+            if len(cands) == 1 and name.startswith("_") and not name.startswith("__") and cands[0].qual not in frame.chain and len(frame.chain) <= self.inline_depth:
+                # a private helper of another node with a single implementation: what it does to that node is part of this function
+                return self.call_function(cands[0], recv, nt, args, kwargs, st, frame, node, recv=recv)
             if cands:
                 return self.call_opaque(recv, name, cands, args, kwargs, st, frame, node)
             # a callable stored in a field (commission_fn, pred, model, stack ...)
@@ -1352,14 +1390,31 @@ class Evaluator(object):
             # xs = [..]; xs.append(a)   outside any loop: the literal grows
             st.locals[src_name] = recv + (args[0],)
             return NONE
-        if name in ("append", "extend") and src_name is not None and frame.loops and len(args) == 1 and isinstance(recv, tuple) and recv and recv[0] in ("list", "listacc"):
+        if (name == "extend" and src_name is not None and not frame.loops and len(args) == 1 and isinstance(recv, tuple) and recv and _list_value(recv) and st.locals.get(src_name) == recv
+                and isinstance(args[0], tuple) and args[0] and args[0][0] == "comp" and args[0][1] in ("list", "gen")):
+            # xs.extend(f(c) for c in it)   outside any loop   is   xs = xs + [f(c) for c in it]
+            st.locals[src_name] = ("+", recv, ("comp", "list") + tuple(args[0][2:]))
+            return NONE
+        if name in ("append", "extend") and src_name is not None and frame.loops and len(args) == 1 and isinstance(recv, tuple) and recv and (recv[0] == "listacc" or _list_value(recv)):
             loop = frame.loops[-1]
-            if recv[0] == "list" and (len(recv) == 1 or name == "extend" or src_name in loop.appends or True) and not getattr(loop, "is_while", False) and st.locals.get(src_name) == recv:
+            if _list_value(recv) and (len(recv) == 1 or name == "extend" or src_name in loop.appends or True) and not getattr(loop, "is_while", False) and st.locals.get(src_name) == recv:
                 # res = [..]; for c in xs: res.append(f(c)) / res.extend(g(c))   is   [..] + [f(c) for c in xs] / [m for c in xs for m in g(c)]
                 rel = [l for l in st.guard if l not in loop.guard0 or l in loop.filter]
                 item = args[0] if name == "append" else ("comp", "list", ("elem", args[0], len(frame.loops)), args[0], ())
                 loop.appends.setdefault(src_name, []).append((item, tuple(l for l in rel if not (isinstance(l[0], tuple) and l[0] and l[0][0] == "impl")), name, recv))
                 return NONE
+        if (name == "setdefault" and not kwargs and len(args) == 2 and recv[0] == "fld" and recv[2] in ("temp", "perm") and isinstance(node, ast.Call)
+                and isinstance(node.func, ast.Attribute) and len(node.args) == 2 and all(_simple_pure_expr(a_) for a_ in node.args) and _simple_pure_expr(node.func.value)):
+            # d.setdefault(k, v)   is   if k not in d: d[k] = v   followed by   d[k]
+            d_, k_, v_ = node.func.value, node.args[0], node.args[1]
+            sub_store = ast.Subscript(value=d_, slice=k_, ctx=ast.Store())
+            stmt = ast.If(test=ast.Compare(left=k_, ops=[ast.NotIn()], comparators=[d_]), body=[ast.Assign(targets=[sub_store], value=v_)], orelse=[])
+            sub_load = ast.Subscript(value=d_, slice=k_, ctx=ast.Load())
+            for n_ in (stmt, sub_load):
+                ast.copy_location(n_, node)
+                ast.fix_missing_locations(n_)
+            self.st_If(stmt, st, frame)
+            return self.ev(sub_load, st, frame)
         if name == "get" and not kwargs and len(args) in (1, 2) and recv[0] == "fld" and recv[2] in ("temp", "perm"):
             # d.get(k[, default]) on the plain dicts a strategy carries: d[k] when k is present, the default otherwise
             stored = st.sub.get((canon(recv), canon(args[0])))
@@ -1711,6 +1766,24 @@ def _conj(lits):
     if len(parts) == 1:
         return parts[0]
     return ("and",) + tuple(parts)
+
+
+def _list_value(v):
+    """a list created in this function: a literal or list(<iterable>)"""
+    return isinstance(v, tuple) and bool(v) and (v[0] == "list" or (v[0] == "call" and v[1] == "list" and len(v) == 4 and not v[3]))
+
+
+def _simple_pure_expr(n):
+    """an expression whose evaluation has no effect and that may be evaluated twice: names, attribute chains, constants, empty containers"""
+    if isinstance(n, (ast.Constant, ast.Name)):
+        return True
+    if isinstance(n, ast.Attribute):
+        return _simple_pure_expr(n.value)
+    if isinstance(n, ast.Call) and isinstance(n.func, ast.Name) and n.func.id in ("set", "dict", "list") and not n.args and not n.keywords:
+        return True
+    if isinstance(n, (ast.List, ast.Dict, ast.Set, ast.Tuple)):
+        return not (n.elts if not isinstance(n, ast.Dict) else n.keys)
+    return False
 
 
 def _ite(cond, a, b):
